@@ -1,5 +1,6 @@
 # -*- coding: utf-8 -*-
 """C12 -- schema -> SDL -> schema is the identity; printing is history-independent."""
+import os
 from .. import gen_sdl, sdl_impl, ser, ser_sdl
 
 PROP = "C12"
@@ -195,6 +196,8 @@ def direct_checks(case, obs):
 
 
 def shrink(case, is_bad):
+    if os.environ.get("VERIF_NO_SHRINK"):
+        return case
     steps = case["steps"]
     changed = True
     while changed and len(steps) > 1:
